@@ -388,6 +388,9 @@ impl CommandAnalyzer {
                     let err_type = inner[comma_pos + 1..].trim();
                     self.extract_type_names_recursive(ok_type, type_names);
                     self.extract_type_names_recursive(err_type, type_names);
+                } else {
+                    // One-argument alias `Result<T>` (e.g. `type Result<T> = std::result::Result<T, Error>`)
+                    self.extract_type_names_recursive(inner, type_names);
                 }
             }
             return;
